@@ -21,7 +21,8 @@ Inductive stmt : Type :=
 | Read (f : string) | Write (f : string)
 | Call (g : string)                 (* CallHeld / CallManaged / CallStatic: the class is the callee's contract *)
 | BlockingRead (c : string) | SetDeadline (c : string)
-| NetIO                             (* network I/O, sleeps, accepts: anything that may block for long *)
+| NetIO (w : string)                (* network I/O, sleeps, accepts: anything that may block for long;
+                                       w is a label for diagnosis, e.g. "conn.Write" *)
 | Seq (a b : stmt)
 | Choice (a b : stmt)               (* if / switch / select: any branch *)
 | Block (b : stmt)                  (* switch / select body: catches Break *)
@@ -246,7 +247,7 @@ Definition do_setdl (c : string) (s : st) : res :=
 (* a goroutine body that touches nothing but immutable state does not end the exclusive phase *)
 Fixpoint inert (s : stmt) : bool :=
   match s with
-  | Skip | NetIO | Return | Break | Continue | Panic | BlockingRead _ | SetDeadline _ => true
+  | Skip | NetIO _ | Return | Break | Continue | Panic | BlockingRead _ | SetDeadline _ => true
   | Lock _ | Unlock _ | DeferUnlock _ | Unknown _ => false
   | Read f | Write f => match field_class f with Some FStatic => true | _ => false end
   | Call g => match find_fn (e_fns E) g with
@@ -299,6 +300,10 @@ Fixpoint unwind (cx : ctx) (ds : list string) (h : hold) : violation + hold :=
       end
   end.
 
+Definition hold_label (h : hold) : string :=
+  match h with HExcl => "exclusive" | HFree => "no lock held" | HStat => "static"
+             | HHeld m _ => m ++ " held" end.
+
 (* exit lock state vs entry lock state *)
 Definition exit_ok (k : kind) (e h : hold) : bool :=
   hold_eqb e h || (is_new_kind k && hold_eqb e HExcl && hold_eqb h HFree).
@@ -309,13 +314,13 @@ Definition finish (cx : ctx) (k : kind) (e : hold) (r : res) : ures :=
   | Norm s | Ret s =>
       match unwind cx (defers s) (hold_of s) with
       | inl v => UViol v
-      | inr h => if exit_ok k e h then UOk else UViol (mkv VUnbalancedReturn "" cx)
+      | inr h => if exit_ok k e h then UOk else UViol (mkv VUnbalancedReturn (hold_label h) cx)
       end
   | Pan s =>
       match unwind cx (defers s) (hold_of s) with
       | inl v => UViol v
       | inr h => if exit_ok k e h then UPanic
-                 else if e_panic E then UViol (mkv VUnbalancedPanic "" cx) else UDie
+                 else if e_panic E then UViol (mkv VUnbalancedPanic (hold_label h) cx) else UDie
       end
   | Brk _ | Cont _ => UViol (mkv VStray "" cx)
   | Die => UDie
@@ -344,7 +349,7 @@ Inductive exec : ctx -> stmt -> st -> res -> Prop :=
 | E_Defer cx m s : exec cx (DeferUnlock m) s (do_defer m s)
 | E_Read cx f s : exec cx (Read f) s (do_access cx false f s)
 | E_Write cx f s : exec cx (Write f) s (do_access cx true f s)
-| E_NetIO cx s : exec cx NetIO s (do_netio cx "" s)
+| E_NetIO cx w s : exec cx (NetIO w) s (do_netio cx w s)
 | E_BRead cx c s : exec cx (BlockingRead c) s (do_bread cx c s)
 | E_SetDl cx c s : exec cx (SetDeadline c) s (do_setdl c s)
 | E_Return cx s : exec cx Return s (Ret s)
@@ -459,7 +464,7 @@ Fixpoint post (cx : ctx) (t : stmt) (s : st) : option (list res) :=
   | DeferUnlock m => Some [do_defer m s]
   | Read f => Some (recov (do_access cx false f s) s)
   | Write f => Some (recov (do_access cx true f s) s)
-  | NetIO => Some (recov (do_netio cx "" s) s)
+  | NetIO w => Some (recov (do_netio cx w s) s)
   | BlockingRead c => Some (recov (do_bread cx c s) s)
   | SetDeadline c => Some [do_setdl c s]
   | Return => Some [Ret s]
